@@ -615,6 +615,15 @@ func mutateIE(v reflect.Value, r *Rng) {
 			if r.Bool() {
 				k = 1 + r.Intn(n+8)
 			}
+			if lf.Kind() == reflect.Uint16 && r.Chance(12) {
+				// a container of kilobytes, up to the 64 KiB a 16-bit length allows: where
+				// buffers grow, pools refuse to take a buffer back and copies are skipped
+				k = 1024 << uint(r.Intn(6))
+				k += r.Intn(k)
+				if k > 65535 {
+					k = 65535 - r.Intn(64)
+				}
+			}
 			if lf.Kind() == reflect.Uint8 && k > 255 {
 				k = 255
 			}
@@ -928,10 +937,14 @@ func (c *Catalogue) buildWarm(spec OpSpec, env *Env, task int) *Inst {
 		if cool {
 			res = do()
 		}
-		for _, w := range warm {
-			vsimrt.ArmLimit(perRep)
-			warmCall(w)
-		}
+		func() {
+			vsimrt.SetQuiet(true)
+			defer vsimrt.SetQuiet(false)
+			for _, w := range warm {
+				vsimrt.ArmLimit(perRep)
+				warmCall(w)
+			}
+		}()
 		if vsimrt.Active() {
 			vsimrt.ArmLimit(simCap)
 		} else {
